@@ -455,6 +455,9 @@ func (e *Engine) verifyFunction(fn *ssa.Function, ct *Contract) *FuncReport {
 		resultVars(fn.Signature, ex.results, post.vars)
 		// named results that live in allocs are already loaded by the return
 		for _, en := range ct.Ensures {
+			if en.Assumed {
+				continue
+			}
 			g := c.evalBool(post, en.Expr)
 			c.addObl(&Obl{Name: fmt.Sprintf("%s/ensures#%d/exit[%s]", fn.String(), en.N, fp), Kind: "ensures",
 				Cond: ex.cond, Goal: g, Clause: en.Text, Exit: fp, Pos: e.posString(ex.ret.Pos()), Props: en.Props})
